@@ -14,6 +14,7 @@
 #include <kernel/lafem/sparse_matrix_cscr.hpp>
 #include <kernel/util/binary_stream.hpp>
 #include <kernel/util/dist.hpp>
+#include <kernel/util/dist_file_io.hpp>
 #include <control/checkpoint_control.hpp>
 #include <cstdint>
 #include <sstream>
@@ -342,6 +343,25 @@ static void do_cp(Cur& c, std::ostream& o, bool hexnames, bool indiv)
   }
 }
 
+// DistFileIO::write_combined / read_combined (one process) through a temporary file
+static void do_dfio(Cur& c, std::ostream& o)
+{
+  std::string sh = unhex(c.str()), bf = unhex(c.str());
+  std::vector<char> shared(sh.begin(), sh.end()), buffer(bf.begin(), bf.end());
+  Dist::Comm comm = Dist::Comm::world();
+  String fn = String("/tmp/verif_c05_dfio_") + stringify(getpid()) + ".bin";
+  DistFileIO::write_combined(shared, buffer, fn, comm);
+  std::ifstream f(fn.c_str(), std::ios::binary);
+  std::string file((std::istreambuf_iterator<char>(f)), std::istreambuf_iterator<char>());
+  f.close();
+  std::vector<char> s2, b2;
+  DistFileIO::read_combined(s2, b2, fn, comm);
+  ::remove(fn.c_str());
+  o << "F "; show_hex(o, file.data(), file.size());
+  o << " S "; show_hex(o, s2.data(), s2.size());
+  o << " B "; show_hex(o, b2.data(), b2.size());
+}
+
 static void handle(const verif::Tokens& t, std::ostream& o)
 {
   // runs in the forked child: FEAT prints some warnings to std::cout, which must not reach the result stream
@@ -373,6 +393,10 @@ static void handle(const verif::Tokens& t, std::ostream& o)
   else if(op == "cp")
   {
     do_cp(c, o, false, false);
+  }
+  else if(op == "dfio")
+  {
+    do_dfio(c, o);
   }
   else if(op == "cpx")
   {
